@@ -84,7 +84,9 @@ def run(ctx):
     ctx.cov["samples"] = summ["samples"]
     ctx.cov["exhaustive"] = True
     # ---- bigger configurations (forks up to 4 live blocks, restart with unconfirmed blocks, 4-5 candidates): simulation
-    for cfg, k, num, depth in (("MCRanking_sim.cfg", 2, 60 if quick else 1500, 30), ("MCRanking_sim2.cfg", 3, 40 if quick else 1000, 30)):
+    for cfg, k, num, depth in (("MCRanking_sim.cfg", 2, 30 if quick else 1500, 25), ("MCRanking_sim2.cfg", 3, 0 if quick else 1000, 25)):
+        if num == 0:
+            continue
         sim = ctx.tlc_simulate("MCRanking", cfg, num=num, depth=depth, prefix=cfg[:-4], timeout=900)
         f2, _ = ctx.replay("ranking", sim=sim, shards=16, name=cfg[:-4], timeout=1800,
                            env={"VERIF_RANKING_K": str(k), "VERIF_RANKING_TABLE": tables[(ctx.seed + 1) % 2]})
